@@ -661,7 +661,107 @@ func leanStrList(xs []string) string {
 	return "[" + strings.Join(qs, ", ") + "]"
 }
 
+// Reader: an accessor through which the code reads a global setting (ConfigImpl.Update: cf.GetXxx(config2.Const);
+// config.DbSettings.Update: StringToInterface(updates[Const.String()], Type)), with the type the accessor parses as.
+type Reader struct {
+	Name   string `json:"name"`
+	CT     string `json:"ct"`
+	Where  string `json:"where"`
+	Getter string `json:"getter"`
+}
+
+var getterCT = map[string]string{"GetInt": "int", "GetInt32": "int32", "GetInt64": "int64", "GetDuration": "duration", "GetFloat64": "float64",
+	"GetBool": "boolean", "GetString": "string", "GetStrings": "strings", "GetCoin": "coin"}
+
+func globalReaders(gosrc string, cfg *pkg, gnames map[string]string) []Reader {
+	var res []Reader
+	ch := load(filepath.Join(gosrc, "chaincore/chain"))
+	upd := ch.fn("ConfigImpl.Update")
+	ast.Inspect(upd.Body, func(n ast.Node) bool {
+		c, ok := n.(*ast.CallExpr)
+		if !ok {
+			return true
+		}
+		sel, ok := c.Fun.(*ast.SelectorExpr)
+		if !ok || !strings.HasPrefix(sel.Sel.Name, "Get") || len(c.Args) != 1 {
+			return true
+		}
+		arg, ok := c.Args[0].(*ast.SelectorExpr)
+		if !ok {
+			return true
+		}
+		name, isSetting := gnames[arg.Sel.Name]
+		if !isSetting {
+			return true
+		}
+		ct, known := getterCT[sel.Sel.Name]
+		if !known {
+			die("ConfigImpl.Update reads %s with an unclassified accessor %s", name, sel.Sel.Name)
+		}
+		res = append(res, Reader{Name: name, CT: ct, Where: "chain.ConfigImpl.Update", Getter: sel.Sel.Name})
+		return true
+	})
+	// every other use of a GetXxx(config.<Setting>) accessor in chaincore/chain must be classified as well
+	for name, f := range ch.funcs {
+		if name == "ConfigImpl.Update" {
+			continue
+		}
+		ast.Inspect(f, func(n ast.Node) bool {
+			if c, ok := n.(*ast.CallExpr); ok && len(c.Args) == 1 {
+				if sel, ok := c.Fun.(*ast.SelectorExpr); ok && getterCT[sel.Sel.Name] != "" {
+					if arg, ok := c.Args[0].(*ast.SelectorExpr); ok {
+						if sname, isSetting := gnames[arg.Sel.Name]; isSetting && (src(arg.X) == "config2" || src(arg.X) == "config") {
+							res = append(res, Reader{Name: sname, CT: getterCT[sel.Sel.Name], Where: "chain." + name, Getter: sel.Sel.Name})
+						}
+					}
+				}
+			}
+			return true
+		})
+	}
+	// config.DbSettings.Update: if value, found := updates[X.String()]; found { iValue, err := StringToInterface(value, T) … }
+	ast.Inspect(cfg.fn("DbSettings.Update").Body, func(n ast.Node) bool {
+		ifs, ok := n.(*ast.IfStmt)
+		if !ok || ifs.Init == nil {
+			return true
+		}
+		as, ok := ifs.Init.(*ast.AssignStmt)
+		if !ok || len(as.Rhs) != 1 {
+			return true
+		}
+		ix, ok := as.Rhs[0].(*ast.IndexExpr)
+		if !ok || !strings.HasSuffix(src(ix.Index), ".String()") {
+			return true
+		}
+		c := strings.TrimSuffix(src(ix.Index), ".String()")
+		name, isSetting := gnames[c]
+		if !isSetting {
+			die("DbSettings.Update reads an unknown setting %s", c)
+		}
+		found := false
+		ast.Inspect(ifs.Body, func(m ast.Node) bool {
+			if call, ok := m.(*ast.CallExpr); ok && callName(call) == "StringToInterface" && len(call.Args) == 2 && !found {
+				res = append(res, Reader{Name: name, CT: ctOf(call.Args[1]), Where: "config.DbSettings.Update", Getter: "StringToInterface"})
+				found = true
+			}
+			return true
+		})
+		if !found {
+			die("DbSettings.Update: no StringToInterface for %s", name)
+		}
+		return false
+	})
+	sort.Slice(res, func(i, j int) bool {
+		if res[i].Name != res[j].Name {
+			return res[i].Name < res[j].Name
+		}
+		return res[i].Where < res[j].Where
+	})
+	return res
+}
+
 type Out struct {
+	GlobalReaders   []Reader            `json:"global_readers"`
 	Globals         []Entry             `json:"globals"`
 	GlobalsIgnored  []string            `json:"globals_ignored"`
 	Miner           []Entry             `json:"miner"`
@@ -772,6 +872,7 @@ func main() {
 		o.GlobalsIgnored = append(o.GlobalsIgnored, gnames[src(ix.Index)])
 	}
 	sort.Strings(o.GlobalsIgnored)
+	o.GlobalReaders = globalReaders(gosrc, cfg, gnames)
 
 	// B. minersc, storagesc
 	setters := []string{"setInt", "setInt64", "setFloat64", "setDuration", "setBoolean", "setBalance", "setCoin", "setKey"}
@@ -889,6 +990,16 @@ func writeLean(path string, o *Out) {
 	}
 	ent("globals", o.Globals)
 	fmt.Fprintf(&b, "def globalsIgnored : List String := %s\n\n", leanStrList(o.GlobalsIgnored))
+	b.WriteString("/-- every accessor through which the code reads a global setting: (name, key bytes, type the accessor parses as, where) -/\n")
+	b.WriteString("def globalReaders : List (String × List Nat × CT × String) := [\n")
+	for i, r := range o.GlobalReaders {
+		sep := ","
+		if i == len(o.GlobalReaders)-1 {
+			sep = ""
+		}
+		fmt.Fprintf(&b, "  (%s, %s, CT.%s, %s)%s\n", q(r.Name), bytesLit(r.Name), r.CT, q(r.Where+":"+r.Getter), sep)
+	}
+	b.WriteString("]\n\n")
 	ent("miner", o.Miner)
 	ent("storage", o.Storage)
 	disp := func(name string, ds []Dispatch) {
